@@ -38,7 +38,8 @@ ENTRY = dict(
     families=["c20"],
     exhaustive=False,
     multi_seed=False,
-    rule=("sno: one goroutine drawing from 1..8 live generators in a seeded order with pauses across 4 ms ticks and "
+    rule=("engine ctx: 1500 (thorough 6000) instances created one after the other, each bound to a context of its own that is cancelled as soon as its ids have been seen (every 16th one also runs): no instance or flow id twice; "
+          "sno: one goroutine drawing from 1..8 live generators in a seeded order with pauses across 4 ms ticks and "
           "0..4 snapshot/restore points (every id decoded into time/tick/meta/partition/sequence and replayed through "
           "the Lean step function; snapshots compared field by field), one tight single-goroutine burst, concurrent "
           "stress of 1..16 goroutines x up to 10^6 draws on 1..8 generators with duplicate detection in the harness; "
